@@ -150,6 +150,11 @@ def step (_ : Unit) (line : String) : Unit × String :=
       (match now.toInt?, parseHex h with
        | some now, some f => boolStr (Spec.gcEntryOk now (nameBytes name) f (live == "1") (kept == "1"))
        | _, _ => "bad-op")
+    -- judge: J sound <now> <fileHex> <T> <dataHex>   (conclusion of Props.load_sound on an answer of the implementation)
+    | ["J", "sound", now, f, t, h] =>
+      (match now.toInt?, parseHex f, t.toInt?, parseHex h with
+       | some now, some f, some t, some d => boolStr (Spec.loadSoundOk now f (t, d))
+       | _, _, _, _ => "bad-op")
     | ["crc32", h] => (match parseHex h with | some d => toString (crc32 d) | none => "bad-op")
     | ["witness", n] => witnessScript n
     | ["witness-expect", n] => witnessExpect n
